@@ -8,6 +8,8 @@ mod c06;
 mod c07;
 mod c08;
 mod c09;
+mod c10;
+mod c11;
 mod c13;
 mod c14;
 mod c16;
@@ -40,6 +42,8 @@ fn main() {
             "C05" => c05::replay(r),
             "C06" => c06::replay(r),
             "C09" => c09::replay(r),
+            "C10" => c10::replay(r),
+            "C11" => c11::replay(r),
             "C13" => c13::replay(r),
             "C14" => c14::replay(r),
             "C07" => c07::replay(r),
@@ -59,6 +63,8 @@ fn main() {
         "C05" => c05::run(tier),
         "C06" => c06::run(tier),
         "C09" => c09::run(tier),
+        "C10" => c10::run(tier),
+        "C11" => c11::run(tier),
         "C13" => c13::run(tier),
         "C14" => c14::run(tier),
         "C07" => c07::run(tier),
